@@ -140,6 +140,14 @@ def validateLinksOpt (H : Hier) : Option (List Link) → VOutcome
   | none => .ok
   | some ls => validateLinks H ls
 
+/-- `Engine.__init__` validates the `links=` argument only; links attached to input features are added to
+`Engine.links` afterwards (`add_feature_link_to_links`) and are never passed to `LinkValidator`.  Result: the links
+the planner works with (before set de-duplication), or the validator's error. -/
+def engineLinks (H : Hier) (api : Option (List Link)) (viaFeatures : List Link) : Except VOutcome (List Link) :=
+  match validateLinksOpt H api with
+  | .ok => .ok (api.getD [] ++ viaFeatures)
+  | e => .error e
+
 /-- `ResolveLinkValidator.validate_no_conflicting_join_types` over the keys of `link_trekker.data` (dict order):
 `seen` is the `seen_pairs` dict as an association list -/
 def resolveConflictLoop : List ((Cls × Cls) × JoinType) → List Link → Bool
